@@ -95,7 +95,7 @@ def errName : Err → String
   | .height => "height" | .noprev => "noprev" | .prevheight => "prevheight" | .timestamp => "timestamp"
   | .fewkeys => "fewkeys" | .pubkey => "pubkey" | .fewsigs => "fewsigs" | .sigdata => "sigdata"
   | .multisig => "multisig" | .blockroot => "blockroot" | .stateroot => "stateroot" | .notip => "notip"
-  | .treesize => "treesize" | .hashfile => "hashfile" | .genesis => "genesis" | .other => "other"
+  | .treesize => "treesize" | .hashfile => "hashfile" | .genesis => "genesis" | .payload => "payload" | .other => "other"
 
 def splitOn1 (s : String) (c : Char) : List String := s.splitOn (String.singleton c)
 
@@ -180,6 +180,32 @@ def fastAdd (p : Params) (ts0 lastCfg : Nat) : Nat → List Hash → State → E
     | .ok s' => fastAdd p ts0 lastCfg (i + 1) hs s'
     | .error e => .error s!"err:{errName e}@{i}"
 
+/-- `crash` / `crashr`: AddBlock stopped at crash point k; the guards of AddBlock / saveBlock / submitBlock decide whether
+the point is reached at all; then (crashr) restarts that stop inside recoverStore; then a normal restart -/
+def crashOp (w : World) (p : Params) (g : Block) (s : State) (name k : String) (rs : Option String) : World × String :=
+  match findBlock w name, k.toNat?, (match rs with | none => some [] | some t => parseNats t) with
+  | some b, some k, some rl =>
+    if b.header.height ≤ s.mem.currHeight then (w, "nocrash:ok " ++ observe p s)
+    else
+    let root := (executeBlock p s b).2
+    match addBlock p s b root with
+    | .error e => (w, "nocrash:err:" ++ errName e ++ " " ++ observe p s)
+    | .ok _ =>
+      match crashDurable p s b (executeBlock p s b).1 k with
+      | none => (w, "nocrash:err:other " ++ observe p s)
+      | some d0 =>
+        let (d, pat) := rl.foldl (fun (acc : Durable × String) r =>
+          match reopenCrash p g acc.1 r with
+          | some d' => (d', acc.2 ++ "R")
+          | none => match reopen p g acc.1 with
+            | .ok t => (t.dur, acc.2 ++ "n")
+            | .error _ => (acc.1, acc.2 ++ "e")) (d0, "")
+        let pat := if rs.isSome then " " ++ pat else ""
+        match reopen p g d with
+        | .ok s' => ({ w with st := some s' }, "crashed" ++ pat ++ " ok " ++ observe p s')
+        | .error e => ({ w with st := none, dead := some ("err:" ++ errName e) }, "crashed" ++ pat ++ " err:" ++ errName e)
+  | _, _, _ => (w, "bad-op")
+
 def step (w : World) (toks : List String) : World × String :=
   match toks with
   | ["genesis", n, net, ev, ts, txs, hash, _twin] =>
@@ -212,14 +238,15 @@ def step (w : World) (toks : List String) : World × String :=
   | ["blk", name, h, prev, ts, root, txs, bks, sigs, cfg, lastCfg, hash] =>
     let sg : Option (List Sig) := if sigs == "-" then some [] else (splitOn1 sigs ',').mapM sigOfToken
     let cf : Option (Option (List Nat)) :=
-      if cfg == "-" then some none
+      if cfg == "-" || cfg == "x" then some none
       else match cfg.toList with
         | 'c' :: r => (parseNats (String.ofList r)).map some
         | _ => none
     match h.toNat?, Hex.ofHex prev, ts.toNat?, Hex.ofHex root, parseTxs txs, parseNats bks, sg, cf, lastCfg.toNat?, Hex.ofHex hash with
     | some h, some prev, some ts, some root, some txs, some bks, some sg, some cf, some lc, some hash =>
       let b : Block := { header := { height := h, hash := hash, prev := prev, timestamp := ts, blockRoot := root,
-                                     bookkeepers := bks, sigs := sg, newCfg := cf, lastCfg := lc }, txs := txs }
+                                     bookkeepers := bks, sigs := sg, newCfg := cf, lastCfg := lc,
+                                     payloadOk := cfg != "x" }, txs := txs }
       ({ w with blocks := (name, b) :: w.blocks.filter (·.1 != name) }, "def")
     | _, _, _, _, _, _, _, _, _, _ => (w, "bad-op")
   | op :: args =>
@@ -302,28 +329,13 @@ def step (w : World) (toks : List String) : World × String :=
         | .ok s' => ({ w with st := some s' }, "ok " ++ observe p s')
         | .error e => (w, "err:" ++ errName e ++ " " ++ observe p s)
       | none => (w, "bad-op")
-    | "crash", [name, k], some s =>
-      match findBlock w name, k.toNat? with
-      | some b, some k =>
-        -- AddBlock stopped at crash point k: the guards of AddBlock/saveBlock/submitBlock decide whether the
-        -- point is reached at all
-        if b.header.height ≤ s.mem.currHeight then (w, "nocrash:ok " ++ observe p s)
-        else
-        let root := (executeBlock p s b).2
-        match addBlock p s b root with
-        | .error e => (w, "nocrash:err:" ++ errName e ++ " " ++ observe p s)
-        | .ok _ =>
-          match crashDurable p s b (executeBlock p s b).1 k with
-          | none => (w, "nocrash:err:other " ++ observe p s)
-          | some d =>
-            match reopen p g d with
-            | .ok s' => ({ w with st := some s' }, "crashed ok " ++ observe p s')
-            | .error e => ({ w with st := none, dead := some ("err:" ++ errName e) }, "crashed err:" ++ errName e)
-      | _, _ => (w, "bad-op")
+    | "crash", [name, k], some s => crashOp w p g s name k none
+    | "crashr", [name, k, rs], some s => crashOp w p g s name k (some rs)
     | "add", _, none => (w, "closed")
     | "sub", _, none => (w, "closed")
     | "hdr", _, none => (w, "closed")
     | "crash", _, none => (w, "closed")
+    | "crashr", _, none => (w, "closed")
     | "reopen", [], none =>
       -- a ledger that could not be reopened stays unusable in the harness as well (its stores are closed)
       (w, w.dead.getD "err:other")
